@@ -405,11 +405,13 @@ theorem nodeCore_term {L : Nat} (i : Nat) {nd : Node} (h : BodyTerm cx L nd.kind
 /-- Switching the action family through `change_action`-like actions of node `i` is well-founded
     (otherwise `Action< Rule >::match` calls itself for ever, whatever the grammar). -/
 def WrapWF (i : Nat) (nd : Node) : Prop :=
-  ∃ rank : Env → Nat, ∀ env fam, (cx.actOf env i nd).wrap = .changeAction fam → rank { env with fam := fam } < rank env
+  ∃ rank : Env → Nat, (∀ env fam, (cx.actOf env i nd).wrap = .changeAction fam → rank { env with fam := fam } < rank env) ∧
+    (∀ env fam mu, (cx.actOf env i nd).wrap = .changeActionAndState fam mu →
+      rank { env with fam := fam, sd := env.sd + 1 } < rank env)
 
 theorem term_of_body {L i : Nat} {nd : Node} (hnd : cx.g[i]? = some nd) (hw : WrapWF cx i nd)
     (h : BodyTerm cx L nd.kind) : Term cx L i := by
-  obtain ⟨rank, hrank⟩ := hw
+  obtain ⟨rank, hrank, hrank2⟩ := hw
   intro a m env st hin hrem
   generalize hk : rank env = k
   induction k using Nat.strongRecOn generalizing env with
@@ -451,9 +453,19 @@ theorem term_of_body {L i : Nat} {nd : Node} (hnd : cx.g[i]? = some nd) (hw : Wr
       refine ⟨n + 1, ?_⟩
       simp only [run, nodeCall, hnd, hwr, limitBytesCall, h0, Option.map_some]
       exact ⟨_, rfl⟩
+    | changeState mu =>
+      obtain ⟨n, r0, h0⟩ := nodeCore_term cx i h a m { env with sd := env.sd + 1 } st hin hrem
+      refine ⟨n + 1, ?_⟩
+      simp only [run, nodeCall, hnd, hwr, h0, Option.map_some]
+      exact ⟨_, rfl⟩
+    | changeActionAndState fam mu =>
+      obtain ⟨n, r0, h0⟩ := ih _ (by rw [← hk]; exact hrank2 env fam mu hwr) { env with fam := fam, sd := env.sd + 1 } rfl
+      refine ⟨n + 1, ?_⟩
+      simp only [run, nodeCall, hnd, hwr, h0, Option.map_some]
+      exact ⟨_, rfl⟩
 
-theorem afterBody_ok (i : Nat) (a : AMode) (act : ActionSpec) (saved : Cursor) (r : Ret)
-    (h : (afterBody cx i a act saved r).res = .ok) : r.res = .ok := by
+theorem afterBody_ok (i : Nat) (a : AMode) (act : ActionSpec) (sd : Nat) (saved : Cursor) (r : Ret)
+    (h : (afterBody cx i a act sd saved r).res = .ok) : r.res = .ok := by
   unfold afterBody at h
   split at h
   · rename_i e he; exact absurd h (by simp [he])
@@ -472,7 +484,7 @@ theorem nodeCore_adv {i : Nat} {nd : Node} (h : BodyAdv cx nd.kind) {n : Nat} {a
   · simp only [Option.map_eq_some_iff] at hr
     obtain ⟨r0, h0, rfl⟩ := hr
     simp only [guardRestore_res] at hok
-    have hok0 := afterBody_ok cx _ _ _ _ _ hok
+    have hok0 := afterBody_ok cx _ _ _ _ _ _ hok
     have := h n a _ env st r0 h0 hok0
     rw [guardRestore_ok_st (by simpa using hok)]
     simpa using this
@@ -511,6 +523,12 @@ theorem cons_of_body {i : Nat} (h : ∀ nd, cx.g[i]? = some nd → BodyAdv cx nd
           · rename_i hc _ ; exact absurd ‹_› hc
           · have := nodeCore_adv cx (h nd hnd) h1 (by simpa using hok)
             simpa using this
+      · simp only [Option.map_eq_some_iff] at h0
+        obtain ⟨r1, h1, rfl⟩ := h0
+        simpa using nodeCore_adv cx (h nd hnd) h1 (by simpa using hok)
+      · simp only [Option.map_eq_some_iff] at h0
+        obtain ⟨r1, h1, rfl⟩ := h0
+        simpa using ih _ _ _ _ _ h1 (by simpa using hok)
 
 end
 end Pegtl
